@@ -53,7 +53,7 @@ def _wire(out, spec):
 
 def _pull(inp, r):
     try:
-        return ("ok", float(hlib.tagval(inp.pull_data(r))))
+        return ("ok", hlib.scalar_of(inp.pull_data(r)))
     except FinamTimeError:
         return ("time-error", None)
     except FinamNoDataError:
@@ -97,9 +97,13 @@ def h_events(ctx):
         b = _pull(ends_t[j], r)
         ctx.log(f"ev{i}", [j, a[0], a[1]])
         ctx.cover("pull:" + a[0])
-        if a != b:
+        if a[0] != b[0]:
             ctx.fail("differs-from-unlimited-history",
-                     {"sig": "drop", "consumer": spec[j], "real": a, "unlimited": b})
+                     {"sig": "drop", "consumer": spec[j], "real": str(a), "unlimited": str(b)})
+        elif a[0] == "ok":
+            # same publication (tag) -- for interpolating adapters the same interpolated term
+            ctx.check(ctx.eq(a[1], b[1]), "differs-from-unlimited-history",
+                      {"sig": "drop", "consumer": spec[j]})
         if a[0] == "ok" or direct[j]:
             last_req[j] = r
         # bounded retention once every consumer has pulled
